@@ -31,7 +31,8 @@ HS_CORRUPTIONS = ("none", "no_spaces_status", "nonnumeric_status", "empty_status
                   "nonutf8_value", "nonutf8_name", "nonutf8_status", "cl_garbage", "cl_negative", "cl_huge", "cl_float", "cl_with_body",
                   "redirect_no_location", "redirect_relative", "redirect_foreign_scheme", "redirect_garbage", "redirect_empty",
                   "redirect_unresolvable", "setcookie_odd", "very_long_line", "many_headers", "status_100", "http09", "tab_separators",
-                  "trailing_garbage", "truncated_head", "extra_space_status", "accept_nonascii", "duplicate_status")
+                  "trailing_garbage", "truncated_head", "extra_space_status", "accept_nonascii", "duplicate_status", "unicode_digit_status",
+                  "fullwidth_digit_status", "status_with_sign", "status_with_underscore")
 FR_CORRUPTIONS = ("none", "rsv", "opcode", "len_2_63", "len_2_64_minus_1", "len_16bit_huge", "truncated_payload", "truncated_header",
                   "truncated_extlen", "masked_garbage", "close_1byte", "close_badcode", "close_badutf8", "ping_long", "cont_idle",
                   "text_badutf8", "text_truncated_utf8", "random_tail", "zero_bytes", "nested_text", "frag_text_badutf8_first", "frag_text_badutf8_middle",
@@ -58,6 +59,14 @@ def hs_bytes(rng, corr):
         status_line = "HTTP/1.1 -101 X"
     elif corr == "float_status":
         status_line = "HTTP/1.1 101.0 X"
+    elif corr == "unicode_digit_status":
+        status_line = "HTTP/1.1 " + rng.choice(("\u00b200", "10\u00b9", "\u2460\u2461\u2462", "\u00b3")) + " OK"
+    elif corr == "fullwidth_digit_status":
+        status_line = "HTTP/1.1 \uff11\uff10\uff11 Switching"
+    elif corr == "status_with_sign":
+        status_line = "HTTP/1.1 +101 OK"
+    elif corr == "status_with_underscore":
+        status_line = "HTTP/1.1 1_01 OK"
     elif corr == "extra_space_status":
         status_line = "HTTP/1.1  101 X"
     elif corr == "lf_only":
@@ -207,7 +216,7 @@ def expand(item, seed):
                 for end in ("eof", "silence"):
                     for api in ("recv", "recv_data_frame_ctrl"):
                         yield {"phase": "frames", "gen": "grammar", "corr": corr, "hex": fr_bytes(rng, corr).hex(), "end": end,
-                               "api": api, "seed": sd, "trace": sd == 0}
+                               "api": api, "seed": sd, "trace": sd == 0, "logtrace": sd in (1, 2)}
     else:
         for i in range(item["start"], item["start"] + item["count"]):
             yield gen(random.Random(derive_seed(seed, ID, i)))
@@ -238,7 +247,8 @@ def gen(rng):
                 base[i] = rng.choice((base[i] ^ (1 << rng.randrange(8)), rng.randrange(256), 0, 0xFF, 0x0A, 0x0D, 0x20, 0x3A))
         data = bytes(base)
     return {"phase": phase, "gen": g, "corr": corr, "hex": data.hex(), "end": rng.choice(("eof", "silence")),
-            "api": rng.choice(("recv", "recv_data_frame_ctrl")), "seed": rng.randrange(1 << 30), "trace": rng.random() < 0.3}
+            "api": rng.choice(("recv", "recv_data_frame_ctrl")), "seed": rng.randrange(1 << 30), "trace": rng.random() < 0.3,
+            "logtrace": rng.random() < 0.25}
 
 
 def run(sc, choices=None):
@@ -268,7 +278,9 @@ def run(sc, choices=None):
             peer_cfg["script"] = [{"t": 0, "end": "eof"}]
     trace = bool(sc.get("trace"))
     policy = {"kind": "prob", "p_line": 0.0, "p_call": 0.0} if trace else None
-    w, peers = std_world(seed=int(sc.get("seed", 1)), peer_cfg=peer_cfg, policy=policy, step_cap=3_000_000, time_cap_s=400)
+    # 'logtrace': the library's own trace logging (enableTrace) is on - its extra work on received frames must not fail
+    w, peers = std_world(seed=int(sc.get("seed", 1)), peer_cfg=peer_cfg, policy=policy, step_cap=3_000_000, time_cap_s=400,
+                         trace=bool(sc.get("logtrace")))
     # a second, well-behaved host for redirects that point somewhere resolvable
     calls = []  # (name, outcome, exc name, steps, bytes consumed)
     obs = []
@@ -365,4 +377,4 @@ def _only_after_close(frames, obs, exp):
 
 def sample_view(sc, r):
     return {"phase": sc["phase"], "generator": sc.get("gen"), "corrupted_field": sc.get("corr"), "bytes_hex": sc["hex"][:160],
-            "ending": sc.get("end"), "api": sc.get("api"), "line_tracing": sc.get("trace")}
+            "ending": sc.get("end"), "api": sc.get("api"), "line_tracing": sc.get("trace"), "library_trace_logging": sc.get("logtrace")}
